@@ -322,6 +322,20 @@ fn gen_op(rng: &mut Rng, cl: Class, n: u32, s: &Setup, gens: &[i32], h3: bool) -
                 op.opt("take", &t.to_string()).unwrap();
             }
         }
+        Mode::LendGetW => {
+            // few distinct entities, looked up repeatedly (current and stale generations)
+            let mut hp = String::new();
+            let k = rng.range(1, 3) as usize;
+            let base: Vec<u32> = (0..k).map(|_| if rng.chance(1, 12) { n + rng.below(2) as u32 } else { pick_idx(rng, n, s) }).collect();
+            for j in 0..rng.range(2, 7) {
+                let i = base[rng.below(k as u64) as usize];
+                let cur = if (i as usize) < gens.len() { gens[i as usize] } else { 0 };
+                let g = if cur > 0 { match rng.below(8) { 0 => cur - 1, 1 => cur + 1, _ => cur } } else { 1 };
+                if j > 0 { hp.push(','); }
+                let _ = write!(hp, "{}:{}", i, g.max(1));
+            }
+            op.opt("probes", &hp).unwrap();
+        }
         Mode::LendGet => {
             let mut hp = String::new();
             for j in 0..rng.range(1, 8) {
